@@ -4,7 +4,7 @@ import json
 from mammoth import html, writers
 from mammoth.writers import html as wh
 
-from .. import gen_html, oracle_html as O, terms as T
+from .. import docx_builder as B, gen_html, gen_styles, gen_xml, oracle_html as O, terms as T
 
 HEADER = """From Mammoth Require Import Html Writer WriterSpec.
 Local Open Scope N_scope.
@@ -83,16 +83,155 @@ def run(ctx):
     for i in ctx.coq_eval("c02w", HEADER, terms, "list (node str) * str", "chk")[:5]:
         ctx.violation("correspondence", "model writer and HtmlWriter disagree, or the output does not lex back",
                       {"obligation": "correspondence Model/Writer.v:write_html vs mammoth.html.write", "input": metas[i]}, False)
+    api_stream(ctx, dist)
     ctx.coverage["traces_validated_against_impl"] = len(terms) + len(eterms)
     ctx.coverage["rule"] = ("escape: all ASCII characters + hostile strings; writer: all forests <= %d nodes + random forests with hostile text and "
                             "attribute values; each output is parsed by a strict independent tokenizer (Python) and by the Coq lexer of Proofs/WriterSpec.v; "
                             "non-trivial = distinct forest whose output contains both markup and an entity" % (3 if ctx.thorough else 2))
     ctx.coverage["input_distribution"] = dist
-    ctx.assumptions += ["substitution clause through derived strings (id_prefix ++ name, '#' ++ ...) end-to-end is tested metamorphically, not proved"]
+    ctx.assumptions += ["substitution clause through derived strings (id_prefix ++ name, '#' ++ ...) end-to-end is tested metamorphically (api_stream: hostile strings vs harmless tokens), not proved"]
+
+
+# ---------------------------------------------------------------- document level: strings in, strings out
+HOSTILE_PREFIXES = ["", "p-", "{0}-", "{{x}}", "}{", "{", "%s%d", "\\1$1", '"<&>', "&lt;", "é\u0338", " ", "#", "a b"]
+
+
+def api_doc(rng, strings):
+    """A package whose DATA strings are strings[...] (a function index -> string), with fixed structure:
+    returns (package, id_prefix, style map text, converter attribute values)."""
+    from mammoth.docx.xmlparser import element as X, text as XT
+    n = [0]
+
+    def S():
+        n[0] += 1
+        return strings(n[0])
+    pkg = gen_xml.Package()
+    pkg.styles = [X("w:style", {"w:type": "paragraph", "w:styleId": "S1"}, [X("w:name", {"w:val": "Style One"})]),
+                  X("w:style", {"w:type": "character", "w:styleId": "R1"}, [X("w:name", {"w:val": "Run One"})])]
+    body = []
+    for pi in range(rng.randint(1, 4)):
+        kids = [X("w:pPr", {}, [X("w:pStyle", {"w:val": "S1"})])] if rng.random() < 0.5 else []
+        for ri in range(rng.randint(1, 4)):
+            k = rng.random()
+            run = X("w:r", {}, ([X("w:rPr", {}, [X("w:rStyle", {"w:val": "R1"})])] if rng.random() < 0.4 else []) + [X("w:t", {"xml:space": "preserve"}, [XT(S())])])
+            if k < 0.2:
+                rid = "rIdL%d" % len(pkg.rels)
+                pkg.rels.append((rid, S(), B.REL + "hyperlink"))
+                kids.append(X("w:hyperlink", {"r:id": rid}, [run]))
+            elif k < 0.35:
+                kids.append(X("w:hyperlink", {"w:anchor": S()}, [run]))
+            elif k < 0.5:
+                kids += [X("w:bookmarkStart", {"w:id": str(ri), "w:name": S()}), run]
+            elif k < 0.6:
+                name = "media/image%d.png" % (len(pkg.media) + 1)
+                pkg.media["word/" + name] = b"\x89PNG" + bytes([len(pkg.media)])
+                rid = "rIdI%d" % len(pkg.rels)
+                pkg.rels.append((rid, name, B.REL + "image"))
+                blip = X("a:blip", {"r:embed": rid})
+                pic = X("a:graphic", {}, [X("a:graphicData", {}, [X("pic:pic", {}, [X("pic:blipFill", {}, [blip])])])])
+                kids.append(X("w:r", {}, [X("w:drawing", {}, [X("wp:inline", {}, [X("wp:docPr", {"descr": S()}), pic])])]))
+            elif k < 0.7:
+                if pkg.footnotes is None:
+                    pkg.footnotes = []
+                nid = str(len(pkg.footnotes) + 2)
+                pkg.footnotes.append(X("w:footnote", {"w:id": nid}, [X("w:p", {}, [X("w:r", {}, [X("w:t", {}, [XT(S())])])])]))
+                kids += [run, X("w:r", {}, [X("w:footnoteReference", {"w:id": nid})])]
+            else:
+                kids.append(run)
+        body.append(X("w:p", {}, kids))
+    pkg.body = body
+    sm = "p.S1 => p[data-x=%s].%s:fresh\nr.R1 => span[title=%s]" % (gen_styles.esc_string(S()), "cls", gen_styles.esc_string(S()))
+    return pkg, S(), sm, (S(), S())
+
+
+def skeleton_and_values(forest, vals):
+    out = []
+    for nd in forest:
+        if "name" in nd:
+            for k in sorted(nd["attrs"]):
+                vals.append(nd["attrs"][k])
+            out.append((nd["name"], tuple(sorted(nd["attrs"])), tuple(skeleton_and_values(nd["children"], vals))))
+        else:
+            vals.append(nd["text"])
+            out.append("#text")
+    return out
+
+
+def api_stream(ctx, dist):
+    """the same document twice: once with hostile strings, once with every string replaced by a distinct harmless token.
+    Both outputs must be well-formed, have the same skeleton, and the values of the first must be those of the second with
+    the tokens replaced back — i.e. every string decodes to exactly the original and none of it became markup."""
+    import io
+    import random
+    import mammoth
+    rng = ctx.rng
+    for i in range(600 if ctx.thorough else 90):
+        seed = rng.randrange(1 << 30)
+        hostile = {}
+
+        def hs(k, r=random.Random(seed ^ 0x5bd1)):
+            if k not in hostile:
+                v = ""
+                while not v.strip() or v in hostile.values():
+                    v = B.sanitize("".join(r.choice(gen_html.HOSTILE + ["q", "&#38;", "<b>", "{}", "%"]) for _ in range(r.randint(1, 3))))
+                hostile[k] = v
+            return hostile[k]
+        token = lambda k: "Qx%dxQ" % k
+        outs = []
+        for strings in (hs, token):
+            pkg, prefix, sm, cattrs = api_doc(random.Random(seed), strings)
+            if strings is hs and rng.random() < 0.5:
+                prefix = rng.choice(HOSTILE_PREFIXES)
+            elif strings is token and outs and outs[0][0] in HOSTILE_PREFIXES:
+                prefix = "QxPxQ"
+            data, _ = B.build(pkg)
+
+            def conv(image, cattrs=cattrs):
+                return {"src": cattrs[0], "title": cattrs[1]}
+            try:
+                res = mammoth.convert_to_html(io.BytesIO(data), style_map=sm, id_prefix=prefix, convert_image=mammoth.images.img_element(conv))
+                outs.append((prefix, res.value, None))
+            except Exception as e:
+                outs.append((prefix, None, e))
+        ctx.count()
+        dist["api_documents"] = dist.get("api_documents", 0) + 1
+        (hp, hv, he), (tp, tv, te) = outs
+        back = dict((token(k), v) for k, v in hostile.items())
+        back["QxPxQ"] = hp
+        meta = {"api": "mammoth.convert_to_html", "doc_seed": seed, "id_prefix": hp, "strings": {str(k): v for k, v in sorted(hostile.items())[:12]}}
+        bad = None
+        if he is not None or te is not None:
+            bad = "conversion raised %r" % (he or te)
+        else:
+            try:
+                fh, ft = O.strict_parse(hv), O.strict_parse(tv)
+                vh, vt = [], []
+                if skeleton_and_values(fh, vh) != skeleton_and_values(ft, vt):
+                    bad = "substituting harmless strings for the document's strings changed tags, attribute names or nesting"
+                else:
+                    def unsub(x):
+                        for tk, orig in back.items():
+                            x = x.replace(tk, orig)
+                        return x
+                    for a, b in zip(vh, vt):
+                        if a != unsub(b):
+                            bad = "a string does not decode back to the original: got %r where %r was put in" % (a[:60], unsub(b)[:60])
+                            break
+            except ValueError as e:
+                bad = "output is not well-formed: %s" % e
+        if bad:
+            ctx.violation("oracle", bad, dict(meta, observed=(hv or "")[:500]), True)
+            if len(ctx.violations) > 20:
+                break
+        else:
+            ctx.nontrivial("api%d" % i)
 
 
 def replay(ctx, rep):
     r = rep["replay"]
+    if r.get("api") == "mammoth.convert_to_html":
+        print("replay: re-run ./check C02 with VERIF_SEED=%s; document seed %s, id_prefix %r" % (ctx.seed, r.get("doc_seed"), r.get("id_prefix")))
+        return 1
     if r.get("api") == "_escape_html":
         y = wh._escape_html(r["input"])
         bad = any(ch in y for ch in '<>"')
